@@ -59,7 +59,7 @@ ModB == [Module(<<"a", "b">>, <<<<"a", "P">>>>, <<Q, TypeDef("R", "pub", <<Field
            EXCEPT !.backs = <<Backend("rust", NoText, Epi(3))>>]
 (* W declares an empty vftable block: it still gets its (empty) WVftable struct *)
 ModC == Module(<<"c">>, <<>>, <<TypeDef("S", "pub", <<>>),
-                                 [TypeDef("W", "pub", <<Field("k", "pub", <<>>, TNm("u32"), None, FALSE)>>) EXCEPT !.vft = Vft(None, <<>>)]>>)
+                                 [TypeDef("W", "pub", <<Field("k", "pub", <<>>, TCPtr(TNm("u8")), None, FALSE)>>) EXCEPT !.vft = Vft(None, <<>>)]>>)
 ModEmpty == [Module(<<"e">>, <<>>, <<>>) EXCEPT !.backs = <<Backend("rust", Pro(4), NoText)>>]
 ModBare == Module(<<"d", "bare">>, <<>>, <<>>)
 (* a file name with a dot in its stem: c.v1.pyxis is module `c.v1`, next to module `c` *)
